@@ -265,13 +265,19 @@ func (g *streamGen) traceProgram(noBodyOK bool, sigProb int, rerootOK bool, setF
 	counts := map[string]int{}
 	kinds := []string{"PATTERN", "BEGIN", "END", "BEGINFILE", "ENDFILE"}
 	n := 1 + t.Draw(9)
+	maxSpecial, maxPattern := 3, 4
+	if t.Chance(1, 8) {
+		// a long program: many rules of every kind, interleaved
+		n = 13 + t.Draw(20)
+		maxSpecial, maxPattern = 9, 12
+	}
 	tag := 0
 	var rules []TRule
 	for i := 0; i < n; i++ {
 		k := kinds[t.Weighted(5, 2, 2, 2, 2)]
-		if counts[k] >= 3 {
+		if counts[k] >= maxSpecial {
 			k = "PATTERN"
-			if counts[k] >= 4 {
+			if counts[k] >= maxPattern {
 				continue
 			}
 		}
